@@ -102,7 +102,19 @@ def job_continuum(cfg):
     fn = face_nodes(mesh, axis, value)
     sel = cfg.get("selection", "face")
     stray = []
-    if sel == "stray":
+    if sel == "only-stray":
+        # a selection that bounds no element at all: two non-adjacent nodes of the face
+        belems0 = [set(map(int, row)) for g_ in mesh.Get_list_groupElem(dim - 1) for row in g_.connect]
+        pick = [int(fn[0])]
+        for cand in fn[1:]:
+            if all(not e <= set(pick) | {int(cand)} for e in belems0):
+                pick.append(int(cand))
+            if len(pick) == 2:
+                break
+        nodes = np.array(pick)
+        stray = list(pick)
+        fn = np.array([], dtype=int)
+    elif sel == "stray":
         # add nodes that bound no loaded element: an interior node and one node of the opposite face
         # candidates must not complete any boundary element outside the loaded face
         fset = set(fn.tolist())
@@ -130,7 +142,11 @@ def job_continuum(cfg):
     mark = c.mark()
     with facade.symbolic():
         simu = build(t)
-        if load == "surf_poly":
+        if load == "surf_poly" and sel == "only-stray":
+            simu.add_surfLoad(nodes, [f_of(coefs)], [unknown])
+            want_F = as_sym(0)
+            want_M = [as_sym(0)] * dim
+        elif load == "surf_poly":
             simu.add_surfLoad(nodes, [f_of(coefs)], [unknown])
             I0, Ik = exact_face_integrals(dim, axis, value, coefs)
             want_F = I0 * thick_factor
@@ -257,7 +273,10 @@ def job_continuum(cfg):
     tot = as_sym(0)
     for n in range(mesh.Nn):
         tot = tot + Fn[n, comp if load != "pressure" else axis]
-    o = prove_abs_le(tot - (want_F if want_F is not None else coefs[0] * thick_factor) * Fraction(1001, 1000), TOL, pcs, "twin")
+    twin_target = (want_F if want_F is not None else coefs[0] * thick_factor) * Fraction(1001, 1000)
+    if sel == "only-stray":
+        twin_target = coefs[0]  # the true resultant is 0: claim "resultant = c0" must be refuted
+    o = prove_abs_le(tot - twin_target, TOL, pcs, "twin")
     res.twin(f"{key} twin", o.status == "cex")
     res.stubs |= facade.USED_STUBS
     return res
@@ -350,6 +369,8 @@ def main():
             # prism: axis 2 faces are triangles, axis 0/1 faces are quadrangles -> both appear
             configs.append({"sim": "elastic", "elem": et, "load": load, "selection": sel, "axis": axis, "value": 1.0 if k % 4 < 2 else 0.0})
             k += 1
+    for et in ("TRI3", "QUAD4", "TETRA4", "PRISM6"):
+        configs.append({"sim": "elastic", "elem": et, "load": "surf_poly", "selection": "only-stray", "axis": 0, "value": 1.0})
     for et in (["TRI3", "QUAD8"] if tier == "quick" else ["TRI3", "TRI6", "QUAD4", "QUAD8", "TETRA4", "HEXA8"]):
         for load in ("surf_poly", "volume_poly"):
             configs.append({"sim": "thermal", "elem": et, "load": load, "selection": "face", "axis": 1, "value": 1.0})
